@@ -267,7 +267,9 @@ ITEMS = location_types() + budget_types() + error_types() + [
                   ('entries_are_captured_nodes', 'r is Ok ==> pending_ok(r->Ok_0@)')],
          decreases='events@.len(), 1int',
          proofs=[
-             dict(before='let mut element = capture_node(replay_as_dyn(&mut replay))?;', ghost=True, text='let ghost s1 = replay.rest();'),
+             dict(before='let mut element = capture_node(replay_as_dyn(&mut replay))?;', ghost=True, text='let ghost s1 = replay.rest(); let ghost uso1 = replay.use_site_override();'),
+             dict(before_re=r'batches\.push\(pending_entries_from_events\(', label='C16:the_use_site_of_a_merge_element_is_read_while_the_element_is_still_in_front_of_the_cursor', props=['C16', 'C03'],
+                  text='assert(s1.len() > 0 && element_ref_loc == spec_use_site(uso1, s1[0]));'),
              dict(after='let mut element = capture_node(replay_as_dyn(&mut replay))?;', text='lemma_knode_bounds(s1, 0); let k = knode(s1, 0).unwrap(); assert(s1 =~= events@.skip(1 + captured)); assert(0 <= k <= s1.len() && s1.len() == events@.len() - (1 + captured)); assert(s1.skip(k) =~= events@.skip(1 + captured + k)); captured = captured + k;'),
              dict(after_re=r'let _ = replay\.next\(\)\?;\s*(?=loop)', ghost=True, text='let ghost mut captured: int = 0; assert(events@.len() >= 1 && replay.rest() =~= events@.skip(1));'),
              dict(before='let mut merged = Vec::new();', ghost=True, text='let ghost b0 = batches@;'),
@@ -300,7 +302,9 @@ ITEMS = location_types() + budget_types() + error_types() + [
          proofs=[
              dict(at='start', ghost=True, text='let ghost s0 = ev.rest();'),
              dict(after='let mut node = capture_node(ev)?;', text='lemma_knode_bounds(s0, 0);'),
-             dict(before='let mut element = capture_node(ev)?;', ghost=True, text='let ghost s1 = ev.rest();'),
+             dict(before='let mut element = capture_node(ev)?;', ghost=True, text='let ghost s1 = ev.rest(); let ghost uso1 = ev.use_site_override();'),
+             dict(before_re=r'batches\.push\(pending_entries_from_events\(', label='C16:the_use_site_of_a_merge_element_is_read_while_the_element_is_still_in_front_of_the_cursor', props=['C16', 'C03'],
+                  text='assert(s1.len() > 0 && element_ref_loc == spec_use_site(uso1, s1[0]));'),
              dict(after='let mut element = capture_node(ev)?;', text='lemma_knode_bounds(s1, 0); let k = knode(s1, 0).unwrap(); assert(s1 =~= s0.skip(1 + captured)); assert(0 <= k <= s1.len() && s1.len() == s0.len() - (1 + captured)); assert(s1.skip(k) =~= s0.skip(1 + captured + k)); captured = captured + k;'),
              dict(before='let mut batches = Vec::new();', ghost=True, text='let ghost mut captured: int = 0; assert(s0.len() >= 1 && ev.rest() =~= s0.skip(1));'),
              dict(before='let mut merged = Vec::new();', ghost=True, text='let ghost b0 = batches@;'),
